@@ -28,6 +28,9 @@ package config
 //@ -- Shadowing: a value from a lower-priority source than the one that already supplied the parameter has no
 //@ -- effect - in particular it can neither set the field, nor abort resolution with an error.  Checked at the
 //@ -- three places where an iteration has an effect: the two error exits and the field store.
+//@ -- Determinism: a value is stored only for a parameter that no source of the same or a higher priority has
+//@ -- claimed yet (third check at the field store), so each (source, parameter) pair contributes at most one
+//@ -- value, chosen by the fixed (sorted) key order - not by map iteration order.
 //@ -- Claiming: within one source, every known parameter that the source is allowed to set ends its iteration
 //@ -- claimed (recorded in nameToSource by this or a higher-priority source) - in particular an invalid,
 //@ -- non-fatal value claims the parameter for the default, so that lower-priority sources cannot supply it.
@@ -35,10 +38,10 @@ package config
 //@ func (*Config).resolve
 //@   property C27
 //@   option safety off
-//@   loop 2 invariant forall r string :: visited[r] && (strLower(r) in knownParams) && !(paramIsLocal(knownParams[strLower(r)]) && !srcIsLocal(source)) ==> (strLower(r) in nameToSource)
+//@   loop 2 invariant forall j int :: 0 <= j && j <= rangeindex && (strLower(rawNames[j]) in knownParams) && !(paramIsLocal(knownParams[strLower(rawNames[j])]) && !srcIsLocal(source)) ==> (strLower(rawNames[j]) in nameToSource)
 //@   ghost at call logrus.Errorf: check source >= currentSource
 //@   ghost at call logrus.Entry).Error: check source >= currentSource
-//@   ghost at call (reflect.Value).Set: check source >= currentSource ; check !(metadata.Local && !srcIsLocal(source))
+//@   ghost at call (reflect.Value).Set: check source >= currentSource ; check !(metadata.Local && !srcIsLocal(source)) ; check !(lowerCaseName in nameToSource) || source > currentSource
 
 //@ -- parameter parsers are assumed to be pure (they do not modify configuration state)
 //@ func (Param).Parse
